@@ -14,6 +14,7 @@ Four engines, all judged ONLY by the rules the statement lists:
 import sys, os, shutil, random
 sys.path.insert(0, os.path.join(os.path.dirname(os.path.abspath(__file__)), '..', 'vlib'))
 from harness import main, Part, pmap, SAN_ENV
+import twoproc
 from p11client import Exec, Died, Hang, mkconf
 import keys_fixed2 as K, mechtable as MT
 
@@ -639,6 +640,8 @@ def run(ctx):
     for be in backends: jobs.append(dict(paths=p, hdr=p['hdr'], scratch=ctx.scratch, what='hist', backend=be, name=f'{be}-directed', seeds=[], steps=0, directed=True))
     jobs.sort(key=lambda j: 0 if j.get('kind') in ('RSApriv', 'RSApub', 'DHPARAMS', 'DSAPARAMS') else 1)
     for part in pmap(worker, jobs, ctx.nproc): ctx.merge(part)
+    # another PROCESS makes a one-way change to a token key this process has already read (both back-ends): it cannot be undone from here either, and a fresh process reads the new value
+    for be in ('file', 'db'): ctx.extra.setdefault('two_process_cells', {})[be] = twoproc.stale_view(ctx, be, 'oneway')
     ctx.assumptions += ['raw CK_BBOOL bytes {0x00,0x01,0x02,0x80,0xFF} for attributes with a forbidden direction are judged by effect only (the attribute still reads protected and its gate still holds); rejecting or normalising a non-canonical byte is the token\'s choice',
                         'the read-only table is conservative: data-object attributes, CKA_CHECK_VALUE, CKA_PUBLIC_KEY_INFO, CKA_DESTROYABLE and CKA_COPYABLE true->false are "open" (no demand); where a token may be stricter a refusal is accepted',
                         'a rejected multi-attribute template that changed a SESSION object is the known C09 defect (SessionObject::abortTransaction) and only observed here',
